@@ -33,17 +33,20 @@ import (
 // with (from, c, data) in the pool; every Publish message V writes to H is in the pool
 // and is for a channel V subscribes to.
 type c27World struct {
-	s      *dsim.Sim
-	fw     *fsub.World
-	v      *fsub.FNode
-	h, m   *fsub.Script
-	chans  []string // channels V subscribes to
-	pool   map[string]bool
-	ops    int
-	maxOps int
-	n      int
-	viol   *dsim.Violation
-	kinds  map[string]string // data -> injected kind (diagnostics)
+	s       *dsim.Sim
+	fw      *fsub.World
+	v       *fsub.FNode
+	h, m    *fsub.Script
+	chans   []string // channels V subscribes to
+	pool    map[string]bool
+	ops     int
+	maxOps  int
+	n       int
+	quick   int
+	quickAt time.Duration
+	injAt   map[string]time.Duration
+	viol    *dsim.Violation
+	kinds   map[string]string // data -> injected kind (diagnostics)
 }
 
 func init() {
@@ -53,7 +56,7 @@ func init() {
 		Cfg:        dsim.Config{MaxChaosSteps: 140, MaxStableSteps: 4000, Horizon: 5 * time.Second},
 		Real:       []string{"pubsub/floodsub.FloodSub (AddPeerStream, Execute, stream handler read pump, handlePublish, handleValidMessage, execPublish, subscriptions)", "pubsub/util/pubmessage.ExtractAndVerify", "peer.SignedMsg verification", "stream/packet.Session framing"},
 		Stub:       []string{"peers are scripted (one honest downstream, one malicious); streams are simulator-owned byte streams with chunked delivery", "go-cache janitor goroutine not started"},
-		FaultKinds: []string{"fault:tampered-data", "fault:retargeted-channel", "fault:foreign-signature", "fault:embedded-pubkey", "fault:same-signature-new-data", "fault:wrong-context", "fault:cross-channel-context", "fault:empty-channel", "fault:unsubscribed-channel", "fault:corrupt-frame", "fault:chunking", "fault:clock-jump"},
+		FaultKinds: []string{"fault:bare-context", "fault:prefix-channel-context", "fault:subscribe-then-release-at-once", "fault:tampered-data", "fault:retargeted-channel", "fault:foreign-signature", "fault:embedded-pubkey", "fault:same-signature-new-data", "fault:wrong-context", "fault:cross-channel-context", "fault:empty-channel", "fault:unsubscribed-channel", "fault:corrupt-frame", "fault:chunking", "fault:clock-jump"},
 	})
 }
 
@@ -71,6 +74,7 @@ func (w *c27World) Setup(s *dsim.Sim) {
 	w.fw = fsub.New(s)
 	w.pool = map[string]bool{}
 	w.kinds = map[string]string{}
+	w.injAt = map[string]time.Duration{}
 	w.v = w.fw.AddNode("V")
 	all := []string{"chA", "chB", "chC"}
 	w.chans = all[:1+t.Draw(3, "channels")]
@@ -109,6 +113,12 @@ func (w *c27World) Setup(s *dsim.Sim) {
 				sub = true
 			}
 		}
+		if !sub && inner.GetChannel() == "chZ" && w.quick > 0 && w.injAt[data] < w.quickAt+300*time.Millisecond {
+			// the router re-evaluates its subscriptions at most once every 100 ms: for that
+			// long after the release the channel still counts as wanted (by design)
+			s.Count("probe:forwarded-within-evaluation-window")
+			sub = true
+		}
 		if !sub {
 			w.fail(&dsim.Violation{Property: "C27", Rule: "forwarded-unsubscribed-channel", Witness: "channel-not-subscribed",
 				Detail: fmt.Sprintf("V forwarded %q for channel %s which it does not subscribe to", data, inner.GetChannel())})
@@ -141,7 +151,7 @@ func (w *c27World) honest(from *sig.Party, ch string) *peer.SignedMsg {
 	return sm
 }
 
-var c27Kinds = []string{"honest", "honest", "relayed-honest", "tampered-data", "retargeted-channel", "foreign-signature", "embedded-pubkey", "same-signature-new-data", "wrong-context", "cross-channel-context", "empty-channel", "unsubscribed-channel", "corrupt-frame"}
+var c27Kinds = []string{"honest", "honest", "relayed-honest", "tampered-data", "retargeted-channel", "foreign-signature", "embedded-pubkey", "same-signature-new-data", "wrong-context", "cross-channel-context", "empty-channel", "bare-context", "prefix-channel-context", "unsubscribed-channel", "corrupt-frame"}
 
 func (w *c27World) inject(kind string) {
 	s := w.s
@@ -220,6 +230,12 @@ func (w *c27World) inject(kind string) {
 		sm = mk(P, other, ch, tag, "")
 	case "empty-channel":
 		sm = mk(P, "", "", tag, "")
+	case "bare-context":
+		// signed under the context prefix with no channel at all, addressed to ch
+		sm = mk(P, "", ch, tag, "")
+	case "prefix-channel-context":
+		// signed for a channel whose name is a proper prefix of ch, addressed to ch
+		sm = mk(P, ch[:len(ch)-1], ch, tag, "")
 	case "unsubscribed-channel":
 		// perfectly valid, but V does not subscribe to chZ
 		w.n++
@@ -227,6 +243,7 @@ func (w *c27World) inject(kind string) {
 		w.kinds[data] = kind
 		sm2, _, _ := pubmessage.NewPubMessage("chZ", P.Priv, hash.HashType_HashType_SHA256, []byte(data))
 		w.pool[key("P", "chZ", data)] = true
+		w.injAt[data] = s.Now()
 		sm = sm2
 	case "corrupt-frame":
 		sm = w.honest(P, ch)
@@ -251,6 +268,20 @@ func (w *c27World) Actions(s *dsim.Sim, add func(dsim.Action)) {
 		w.ops++
 		w.inject(c27Kinds[s.Tape.Draw(len(c27Kinds), "kind")])
 	}})
+	if s.ParkedCount() == 0 && w.fw.Idle() && w.quick < 2 {
+		// the application subscribes to chZ and releases the subscription at once (both inside
+		// one evaluation window of the router, nothing in flight): afterwards V does not
+		// subscribe to chZ, as before
+		add(dsim.Action{Name: "3op:V-subscribe-and-release-chZ", Weight: 2, Fire: func() {
+			w.ops++
+			w.quick++
+			w.quickAt = s.Now()
+			s.Count("fault:subscribe-then-release-at-once")
+			sr := w.v.Subscribe("chZ")
+			sr.Sub.Release()
+			sr.Released = true
+		}})
+	}
 	add(dsim.Action{Name: "3op:H-publish", Weight: 3, Fire: func() {
 		w.ops++
 		ch := w.chans[s.Tape.Draw(len(w.chans), "ch")]
